@@ -19,7 +19,7 @@ EXPLANATION = (
     "format chosen per width by partial evaluation of the constructor's threshold chain, size = width//8, the "
     "truncating slice in pack dominated by a raising range guard whose bounds fold to the type's exact range for "
     "every width, unpack pads by exactly (wide size - size) bytes with 0xFF iff the sign bit of the top byte is set; "
-    "R4 struct errors in encode_raw/decode_raw are never swallowed; R5 __len__ = codec size * 8; R6 text codecs. R8 no class-level mutable object is mutated in place by instances (each node/client/map/dictionary has its own state)."
+    "R4 struct errors in encode_raw/decode_raw are never swallowed; R5 __len__ = codec size * 8; R6 text codecs; R8 structural assumptions shared by all properties: no class-level mutable object is mutated in place by instances, no method re-runs the constructor, logging statements cannot raise."
 )
 ASSUMPTIONS = [
     "CPython struct semantics for standard formats (range checking, exact-size unpack) are the trusted base",
